@@ -32,6 +32,110 @@ type c02Gen struct {
 	misUsed map[string]bool
 	noMis   bool // leave out requests whose type does not fit their handle (C18 streams)
 	noTime  bool // leave out requests whose reply shows times or file-system counters that change between two runs (C18, os-backed)
+	// big (C02 only): one request in five is one whose REPLY is as large as the server's configuration lets it be
+	// (see bigOp); cfg is the configuration the program will run under.
+	big bool
+	cfg c02SrvCfg
+}
+
+// c02SrvCfg is a server configuration: WithAllocator / WithRSAllocator and WithMaxTxPacket / WithRSMaxTxPacket.
+type c02SrvCfg struct {
+	Alloc bool
+	MaxTx uint32 // 0 = default (32768)
+}
+
+func (c c02SrvCfg) text() string {
+	return fmt.Sprintf("alloc=%s/max-tx=%s", map[bool]string{false: "off", true: "on"}[c.Alloc], c02TxName(c.MaxTx))
+}
+
+func c02TxName(v uint32) string {
+	if v == 0 {
+		return "default"
+	}
+	return fmt.Sprintf("%06d", v)
+}
+
+// Sizes that matter for a reply: c02FrameMax is the largest frame length the package's own reader accepts
+// (maxMsgLength) and the size of an allocator page; a DATA reply has 9 bytes in front of its payload within the
+// frame (type, id, length) and 13 within a page (those and the frame length), a NAME reply with one entry whose name
+// is given twice has 21 bytes around the two copies.
+const (
+	c02FrameMax  = 256 * 1024
+	c02DataAtMax = c02FrameMax - 9         // payload of the longest DATA reply a frame of c02FrameMax takes
+	c02DataPage  = c02FrameMax - 13        // payload of the longest DATA reply built inside one allocator page
+	c02NameAtMax = (c02FrameMax - 21) / 2  // path length of the longest one-entry NAME reply that fits such a frame (131061)
+	c02PathMax   = c02FrameMax - 9 - 4 - 2 // about the longest path a REALPATH request frame can carry
+)
+
+// c02MaxTxValues: default, a middle value, the values at which the longest DATA reply just fits / no longer fits an
+// allocator page and a frame of c02FrameMax, the "natural" 256 KiB, and twice that.
+var c02MaxTxValues = []uint32{0, 65536, c02DataPage, c02DataPage + 1, c02DataAtMax, c02DataAtMax + 1, c02FrameMax, 2 * c02FrameMax}
+
+func c02AllCfgs() []c02SrvCfg {
+	var out []c02SrvCfg
+	for _, a := range []bool{false, true} {
+		for _, m := range c02MaxTxValues {
+			out = append(out, c02SrvCfg{a, m})
+		}
+	}
+	return out
+}
+
+// c02BigHandles are opened in addition to c02AllHandles by programs of the big-reply family only.
+var c02BigHandles = []gHandle{
+	{Name: "dh", Kind: "dir", Path: "dhuge"}, // request server: 120 names of 1400 bytes
+	{Name: "dw", Kind: "dir", Path: "dwide"}, // 130 names of 250 bytes (what a file system takes)
+}
+
+func c02BigDir(server string) string {
+	if server == "rs" {
+		return "dh"
+	}
+	return "dw"
+}
+
+func (c c02SrvCfg) effTx() uint32 {
+	if c.MaxTx == 0 {
+		return 32768
+	}
+	return c.MaxTx
+}
+
+// bigReadLens: lengths around every size that matters, and around what this server will cut a READ down to.
+func (c c02SrvCfg) bigReadLens() []uint32 {
+	e := c.effTx()
+	return []uint32{e - 1, e, e, e + 1, c02DataPage, c02DataPage + 1, c02DataAtMax, c02DataAtMax + 1, c02FrameMax, 300000, 0xFFFFFFFF}
+}
+
+var c02LongPaths = []uint32{c02NameAtMax - 1, c02NameAtMax, c02NameAtMax + 1, 140000, 200000, c02PathMax}
+
+// bigOp draws a request whose reply is of the largest size its kind can have under the configuration: READ of the
+// longest length on the 600000-byte file, READDIR of a directory with many long names, REALPATH / READLINK of very
+// long paths (the NAME reply carries the resolved path twice, so it outgrows every request).
+func (g *c02Gen) bigOp(i int) (gOp, bool) {
+	switch r := g.rng.Intn(10); {
+	case r < 5:
+		if g.state["r0"] != "open" {
+			return gOp{}, false
+		}
+		k := g.nextOff["r0/r"]
+		g.nextOff["r0/r"]++
+		lens := g.cfg.bigReadLens()
+		return gOp{K: "read", H: "r0", Off: int64(k)*33001 + int64(g.rng.Intn(7)), Len: lens[g.rng.Intn(len(lens))]}, true
+	case r < 7:
+		h := c02BigDir(g.server)
+		if g.state[h] != "open" {
+			return gOp{}, false
+		}
+		return gOp{K: "readdir", H: h}, true
+	case r < 9:
+		return gOp{K: "realpath", P: "s0", Pad: c02LongPaths[g.rng.Intn(len(c02LongPaths))]}, true
+	default:
+		if g.server == "rs" {
+			return gOp{K: "readlink", P: "lnk", Pad: c02LongPaths[g.rng.Intn(len(c02LongPaths))]}, true
+		}
+		return gOp{K: "readlink", P: "lnkmax"}, true
+	}
 }
 
 var c02AllHandles = []gHandle{
@@ -48,6 +152,14 @@ func newC02Gen(rng *rand.Rand, server string) *c02Gen {
 		g.state[h.Name] = "open"
 	}
 	g.state["stale"] = "stale"
+	return g
+}
+
+// newC02BigGen: the generator of the big-reply family, for a server that will run with cfg.
+func newC02BigGen(rng *rand.Rand, server string, cfg c02SrvCfg) *c02Gen {
+	g := newC02Gen(rng, server)
+	g.big, g.cfg = true, cfg
+	g.state[c02BigDir(server)] = "open"
 	return g
 }
 
@@ -136,6 +248,9 @@ func (g *c02Gen) badHandle() string {
 }
 
 func (g *c02Gen) try(i int) (gOp, bool) {
+	if g.big && g.rng.Intn(5) == 0 {
+		return g.bigOp(i)
+	}
 	r := g.rng.Intn(100)
 	miss := g.rng.Intn(4) == 0
 	name := func(prefix string) string {
@@ -309,6 +424,9 @@ func (g *c02Gen) program(n int, idStyle string) gProg {
 	}
 	gAssignIDs(&p, g.rng, idStyle)
 	p.Handles = gUsedHandles(p)
+	if g.big {
+		p.Alloc, p.MaxTx = g.cfg.Alloc, g.cfg.MaxTx
+	}
 	return p
 }
 
@@ -346,7 +464,45 @@ func gUsedHandles(p gProg) []gHandle {
 			hs = append(hs, h)
 		}
 	}
+	for _, h := range c02BigHandles {
+		if used[h.Name] {
+			hs = append(hs, h)
+		}
+	}
 	return hs
+}
+
+// c02BigFixed are hand-written pipelines around requests with replies of the largest size, for a server configured
+// with cfg: every one of them has small requests before and behind the large ones, and all their completion orders
+// are forced. Lengths are chosen from the configuration, so the same five programs probe, configuration by
+// configuration, a DATA payload just inside / outside an allocator page and a frame of c02FrameMax.
+func c02BigFixed(server string, cfg c02SrvCfg) []gProg {
+	mk := func(ops ...gOp) gProg {
+		p := gProg{Server: server, Alloc: cfg.Alloc, MaxTx: cfg.MaxTx, Ops: ops}
+		for i := range p.Ops {
+			p.Ops[i].ID = uint32(0x52000000 + 17*(len(ops)-i))
+		}
+		p.Handles = gUsedHandles(p)
+		return p
+	}
+	e := cfg.effTx()
+	dir := c02BigDir(server)
+	link := gOp{K: "readlink", P: "lnkmax"}
+	if server == "rs" {
+		link = gOp{K: "readlink", P: "lnk", Pad: 140000}
+	}
+	return []gProg{
+		// small READ, the longest READ the server serves, a command
+		mk(gOp{K: "read", H: "r0", Off: 0, Len: 4096}, gOp{K: "read", H: "r0", Off: 4096, Len: e}, gOp{K: "fstat", H: "r0"}),
+		// four READs asking for more than the server serves, by one byte … by 4 GiB
+		mk(gOp{K: "read", H: "r0", Off: 1, Len: e + 1}, gOp{K: "read", H: "r0", Off: 70000, Len: 0xFFFFFFFF}, gOp{K: "read", H: "r1", Off: 5, Len: e}, gOp{K: "read", H: "r0", Off: 300000, Len: e - 1}),
+		// a path whose NAME reply is larger than any request can be, among reads and a write
+		mk(gOp{K: "read", H: "r1", Off: 0, Len: 10}, gOp{K: "realpath", P: "s0", Pad: 140000}, gOp{K: "write", H: "w0", Off: 0, Len: 100}, gOp{K: "read", H: "r0", Off: 9, Len: e}),
+		// the longest one-entry NAME reply that fits a frame of c02FrameMax, and the one that is two bytes longer
+		mk(gOp{K: "realpath", P: "s0", Pad: c02NameAtMax}, gOp{K: "read", H: "r0", Off: 0, Len: 1}, gOp{K: "realpath", P: "s1", Pad: c02NameAtMax + 1}, link),
+		// listings with many long names: full batch, rest, end of the listing, then CLOSE
+		mk(gOp{K: "readdir", H: dir}, gOp{K: "read", H: "r0", Off: 33, Len: e}, gOp{K: "readdir", H: dir}, gOp{K: "readdir", H: dir}, gOp{K: "close", H: dir}),
+	}
 }
 
 // c02Fixed are hand-written depth-4 pipelines whose four calls are all held at once (24 completion orders each,
@@ -423,9 +579,19 @@ func c02Summarise(run *gRun, job c02Job, modelOK bool) gSummary {
 		}
 	}
 	s.Text = p.shape() + fmt.Sprint(cs.Order, cs.Mode)
+	cfg := c02SrvCfg{p.Alloc, p.MaxTx}
+	if cfg != (c02SrvCfg{}) {
+		s.Text = cfg.text() + " " + s.Text
+		for _, o := range p.Ops {
+			if o.K == "read" {
+				s.Text += fmt.Sprint(" ", o.Len)
+			}
+		}
+	}
 	s.Nontrivial = held >= 2 || failing
 	hist := func(k string) { s.Hist = append(s.Hist, k) }
 	hist("server=" + p.Server)
+	hist("config=" + p.Server + "/" + cfg.text())
 	hist(fmt.Sprintf("depth=%02d", len(p.Ops)))
 	hist("mode=" + cs.Mode + "/" + cs.Tag)
 	hist(fmt.Sprintf("held-calls=%02d", held))
@@ -438,6 +604,8 @@ func c02Summarise(run *gRun, job c02Job, modelOK bool) gSummary {
 			kind += "/" + run.Routes[k].HKind + "-handle"
 		case gIsMissing(o.P):
 			kind += "/missing-path"
+		case o.Pad > 0:
+			kind += "/long-path"
 		}
 		hist("request=" + kind)
 	}
@@ -462,8 +630,20 @@ func c02Summarise(run *gRun, job c02Job, modelOK bool) gSummary {
 		s.Fails = append(s.Fails, f)
 	}
 	if run.Fault == nil {
+		large := 0
 		for _, fr := range run.Frames {
 			hist("reply=" + gTypeName(fr.Typ))
+			b := c02SizeBucket(len(fr.Body) + 1)
+			hist("reply-frame-length=" + b)
+			if fr.Typ != wire.Status {
+				hist("reply-frame-length/" + gTypeName(fr.Typ) + "=" + b)
+			}
+			if len(fr.Body)+1 > 32768+9 {
+				large++
+			}
+		}
+		if large > 0 && len(p.Ops) > 1 {
+			s.Nontrivial = true // a reply larger than any a default server sends, among other replies
 		}
 		if cs.Mode == "gated" {
 			if held >= 3 && len(p.Ops) <= 6 {
@@ -478,9 +658,30 @@ func c02Summarise(run *gRun, job c02Job, modelOK bool) gSummary {
 	return s
 }
 
+// c02SizeBucket names the range a reply's frame length (the value of its length field) falls into.
+func c02SizeBucket(n int) string {
+	switch {
+	case n <= 1024:
+		return "a:up-to-1KiB"
+	case n <= 32768+9:
+		return "b:up-to-default-DATA(32777)"
+	case n <= 65536+9:
+		return "c:up-to-64KiB+9"
+	case n < c02FrameMax-4:
+		return "d:below-256KiB-4"
+	case n < c02FrameMax:
+		return "e:256KiB-4…256KiB-1"
+	case n == c02FrameMax:
+		return "f:exactly-256KiB"
+	case n <= c02FrameMax+9:
+		return "g:256KiB+1…256KiB+9"
+	}
+	return "h:above-256KiB+9"
+}
+
 func checkC02(c *lib.Ctx) {
 	r := c.R
-	r.Rule = "programs: hand-written depth-4 pipelines, PRNG pipelines of 4…6 mutually independent requests (all 24/120/720 completion orders) and PRNG-drawn pipelines (depth 1…30) over 25 request kinds on open, closed-before, never-issued and wrong-kind handles and on existing/missing paths, ids sequential, descending, random or all equal; every instrumented call (request server: all handler methods; os-backed server: ReadAt/WriteAt/Stat/Readdir/Chmod of the opened files) is held on a gate and the harness opens the gates in a chosen order: ALL feasible completion orders for the small programs, PRNG-chosen orders (uniform, fifo, lifo, earliest-held-longest) for the deep ones, plus un-gated pipelined runs. A case = (server, program, completion order); non-trivial = at least two calls were held at the same time or a failing request is in the stream; distinct by (program shape, order)"
+	r.Rule = "programs: hand-written depth-4 pipelines, PRNG pipelines of 4…6 mutually independent requests (all 24/120/720 completion orders) and PRNG-drawn pipelines (depth 1…30) over 25 request kinds on open, closed-before, never-issued and wrong-kind handles and on existing/missing paths, ids sequential, descending, random or all equal; every instrumented call (request server: all handler methods; os-backed server: ReadAt/WriteAt/Stat/Readdir/Chmod of the opened files) is held on a gate and the harness opens the gates in a chosen order: ALL feasible completion orders for the small programs, PRNG-chosen orders (uniform, fifo, lifo, earliest-held-longest) for the deep ones, plus un-gated pipelined runs. Big-reply family: servers started with WithAllocator / WithRSAllocator on or off and WithMaxTxPacket / WithRSMaxTxPacket in {default, 65536, 262131, 262132 (longest DATA payload inside / outside an allocator page), 262135, 262136 (DATA reply frame of exactly / one over 256 KiB), 262144, 524288}; five hand-written pipelines per configuration (all completion orders in thorough, the first 6 in quick, on 8 of the 16 configurations) and PRNG pipelines on all 16 in which one request in five has a reply of the largest size: READ of max-tx-1, max-tx, max-tx+1, the page/frame boundary lengths, 300000 and 2^32-1 bytes on a 600000-byte file, READDIR of 120 names of 1400 bytes (request server) / 130 names of 250 bytes (os-backed), REALPATH and READLINK of paths of 131060, 131061 (NAME reply just fits 256 KiB), 131062, 140000, 200000 and 262129 bytes, READLINK of a 4000-byte target, mixed with the ordinary requests. A case = (server, configuration, program, completion order); non-trivial = at least two calls were held at the same time, a failing request is in the stream, or a reply longer than a default server's longest stands among other replies; distinct by (configuration, program shape, read lengths, order)"
 	thorough := c.Tier == "thorough"
 	c02Cfg = gCurCfg(c, "pipe", c02Cfg)
 	modelOK := gProbeModel(c, "c02.run "+c02Cfg+" -")
@@ -570,6 +771,33 @@ func checkC02(c *lib.Ctx) {
 		for k := 0; k < nFree; k++ {
 			p := newC02Gen(c.Rand, server).program(1+c.Rand.Intn(30), idStyles[c.Rand.Intn(4)])
 			jobs = append(jobs, gJSON(c02Job{Case: gCase{Prog: p, Mode: "free", Tag: "ungated"}}))
+		}
+
+		// ---- servers with non-default options, requests with replies of the largest size ----
+		all := c02AllCfgs()
+		fixedCfgs, fixedLimit, nBig, nBigFree := all, 24, 3, 2 // per configuration
+		if !thorough {
+			// a handful: the page and frame boundaries with the allocator on and off; the random programs below
+			// visit all sixteen configurations
+			fixedCfgs = []c02SrvCfg{{false, c02FrameMax}, {true, c02FrameMax}, {true, c02DataPage}, {false, c02DataPage + 1}, {false, c02DataAtMax}, {true, c02DataAtMax + 1}, {true, 0}, {false, 2 * c02FrameMax}}
+			fixedLimit = 6
+		} else {
+			nBig, nBigFree = 120, 40
+		}
+		for _, cfg := range fixedCfgs {
+			for _, p := range c02BigFixed(server, cfg) {
+				addAll(p, fixedLimit, "big-reply-fixed")
+			}
+		}
+		for _, cfg := range all {
+			for k := 0; k < nBig; k++ {
+				p := newC02BigGen(c.Rand, server, cfg).program(2+c.Rand.Intn(11), idStyles[c.Rand.Intn(4)])
+				jobs = append(jobs, gJSON(c02Job{Case: gCase{Prog: p, Mode: "gated", Order: c02RandomOrder(p, c.Rand, styles[c.Rand.Intn(len(styles))]), Tag: "big-reply-random-order"}}))
+			}
+			for k := 0; k < nBigFree; k++ {
+				p := newC02BigGen(c.Rand, server, cfg).program(2+c.Rand.Intn(29), idStyles[c.Rand.Intn(4)])
+				jobs = append(jobs, gJSON(c02Job{Case: gCase{Prog: p, Mode: "free", Tag: "big-reply-ungated"}}))
+			}
 		}
 	}
 	sums := gRunBatches(c, "c02", jobs, 2000, modelOK, describe)
